@@ -332,7 +332,7 @@ func TestVerifReplay(t *testing.T) {
 			fmt.Printf("VERIF-REPLAY: %s\n", b)
 			return
 		}
-		if tried >= 3000000 {
+		if tried >= 1500000 {
 			break
 		}
 		k := 0
@@ -556,7 +556,7 @@ func (e *Engine) findCounterexample(fc *FuncContract, opt CheckOptions) map[stri
 	if opt.Tier == "thorough" {
 		maxLen = "6"
 	}
-	out, err := runOverlayTest(opt.RepoDir, pkgDir, overlay, "TestVerifReplay$", []string{"VERIF_TARGET=" + fc.Key, "VERIF_ALPHABET=" + alpha, "VERIF_MAXLEN=" + maxLen}, 120*time.Second)
+	out, err := runOverlayTest(opt.RepoDir, pkgDir, overlay, "TestVerifReplay$", []string{"VERIF_TARGET=" + fc.Key, "VERIF_ALPHABET=" + alpha, "VERIF_MAXLEN=" + maxLen}, 60*time.Second)
 	res := map[string]any{"search": map[string]any{"alphabet": alpha, "max_len": maxLen, "target": fc.Key}}
 	for _, ln := range strings.Split(out, "\n") {
 		if strings.HasPrefix(ln, "VERIF-REPLAY: ") {
